@@ -230,8 +230,6 @@ bool Directory::read(String& name, bool& isDir)
     if(!*pattern || fnmatch(pattern, str, 0) == 0)
     {
       isDir = dent->d_type == DT_DIR;
-      if(dirsOnly && !isDir)
-        continue;
       if(!isDir && (dent->d_type == DT_LNK || dent->d_type == DT_UNKNOWN))
       {
         String path = dirpath;
@@ -241,9 +239,9 @@ bool Directory::read(String& name, bool& isDir)
         struct stat buff;
         if(stat(path, &buff) == 0 && S_ISDIR(buff.st_mode))
           isDir = true;
-        else if(dirsOnly)
-          continue;
       }
+      if(dirsOnly && !isDir) // after the stat: a link to a directory (or a DT_UNKNOWN entry) is a directory here, as without dirsOnly
+        continue;
       if(isDir && *str == '.' && (str[1] == '\0' || (str[1] == '.' && str[2] == '\0')))
         continue;
       name = String(str, strlen(str));
